@@ -16,7 +16,7 @@ META = {
 SPIN = ["ABTD_spinlock_acquire.0", "ABTD_spinlock_acquire.1"]
 
 
-def obligations(tier):
+def own_obligations(tier):
     o = []
     for k, nm in [(0, "thread_create"), (1, "task_create")]:
         o.append(Obl("create_" + nm, "C01/create.c", "ABT_%s (named or unnamed): exactly one push, of a READY unit carrying exactly the given function and argument; handle = that unit" % nm,
@@ -29,6 +29,14 @@ def obligations(tier):
                      no_std=["--pointer-overflow-check", "--signed-overflow-check", "--undefined-shift-check"],
                      encodes=["sched_run", "ABTI_ythread_schedule", "ABTI_sched_has_to_stop", "ABTI_sched_has_unit", "ABTI_sched_finish", "ABT_thread_resume", "ABTI_ythread_resume_and_push", "ABTI_thread_terminate"],
                      bounds="<=5 scheduler iterations (cut by assumption), <=2 units, event_freq 1", symbolic="when the blocked ULT is resumed (before each pool query / event check), when the join request becomes visible", timeout=400))
+    o.append(Obl("main_sched_func", "C01/mainsched.c", "real thread_main_sched_func around ANY scheduler run function (stub: runs some queued units, may return at any time with units still queued -- as basic_wait and user schedulers do --, join/cancel requests arrive at solver-chosen calls): the stream's scheduler ULT finishes only on cancel, or on a finish request with no unit queued and none blocked",
+                 unwind=6, cut_loops=["thread_main_sched_func@while \\(1\\):6"], object_bits=11, backend="cadical", no_std=["--pointer-overflow-check"],
+                 encodes=["thread_main_sched_func"], bounds="<=3 queued + 1 blocked unit, <=6 calls of the run function (cut by assumption)", symbolic="units run per call, when the run function returns, when join/cancel arrive"))
+    return o
+
+
+def obligations(tier):
+    o = own_obligations(tier)
     C12 = importlib.import_module("props.C12")
     o += [x for x in C12.obligations(tier) if x.name == "schedule_step"]
     C06 = importlib.import_module("props.C06")
